@@ -13,7 +13,11 @@ def float_width(box, context, containing_block):
     # Check that box.width is auto even if the caller does it too, because
     # the handle_min_max_width decorator can change the value
     if box.width == 'auto':
-        box.width = shrink_to_fit(context, box, containing_block.width)
+        available_width = containing_block.width - (
+            box.margin_left + box.margin_right +
+            box.padding_left + box.padding_right +
+            box.border_left_width + box.border_right_width)
+        box.width = shrink_to_fit(context, box, available_width)
 
 
 def float_layout(context, box, containing_block, absolute_boxes, fixed_boxes,
